@@ -290,7 +290,8 @@ impl Exec {
         // "rem_perm": {acct: [i0, i1, ...]} presents the account's banks in another order (a client trying orders)
         if let Some(pm) = a.get("rem_perm").and_then(|m| m.get(acct)).and_then(|x| x.as_array()) {
             let idx: Vec<usize> = pm.iter().filter_map(|x| x.as_u64().map(|v| v as usize)).collect();
-            if idx.len() == keys.len() && idx.iter().all(|&i| i < keys.len()) {
+            // (any list of valid indices: a bank may be presented twice or left out)
+            if !idx.is_empty() && idx.iter().all(|&i| i < keys.len()) {
                 keys = idx.iter().map(|&i| keys[i]).collect();
             }
         }
